@@ -31,8 +31,12 @@ Proof.
     match goal with E : first _ = bid _ _ |- _ => rewrite E end.
     repeat split; auto; try (apply K3; lia). intros j G1 G2 G3. symmetry in G3. revert G3. apply K4; lia.
   - repeat split; auto; try lia. match goal with E : gnb _ = S _ |- _ => rewrite <- E end. apply upd_eq.
+  - (* producer's len: head.index.load *) pose proof (absq_len _ Bpos _ Hi). repeat split; auto; lia.
   - (* head.block.store: the producer's assertions only mention ghk as an upper bound *)
     destruct (pp (P s)); brk; repeat split; auto; lia.
+  - (* head.index.store: a len() of the producer in progress sees head.index grow, the abstract queue shrink *)
+    cfacts Hi. destruct (pp (P s)); brk; repeat split; auto; try lia.
+    rewrite skipn_length. lia.
 Qed.
 
 Lemma pres_C s a s' : Inv s -> step s a = Some s' -> cinv B s'.
